@@ -208,6 +208,7 @@ def main(argv):
         violations.append(f)
     # for Verus failures with a Kani twin, try to obtain a concrete failing input and replay it natively
     lines = []
+    vlex_cex = {}
     for f in violations:
         extra = None; suffix = ' no-failing-input-found'
         if f['kind'] == 'verus' and f.get('twin'):
@@ -220,6 +221,20 @@ def main(argv):
                 extra = dict(counterexample=cex); suffix = ''
             elif cex:
                 extra = dict(twin_attempt=cex)
+        elif f['kind'] == 'verus' and f.get('vlex'):
+            # Verus gives no model: search for a concrete failing input of the same definition natively (once per definition)
+            k = (f['vlex']['defn'], f['vlex']['codegen'])
+            if k not in vlex_cex:
+                try:
+                    import kani_engine as K
+                    vlex_cex[k] = K.vlex_search(k[0], k[1], REPO) if len(vlex_cex) < 2 else None
+                except Exception as e:
+                    vlex_cex[k] = dict(error=repr(e))
+            cex = vlex_cex[k]
+            if cex and cex.get('native_reproduced'):
+                extra = dict(counterexample=cex); suffix = ''
+            elif cex:
+                extra = dict(search_attempt=cex)
         elif f['kind'] == 'kani':
             if f.get('native_reproduced'): suffix = ''
             extra = dict(counterexample=f.get('counterexample'), harness=f.get('harness'), native=f.get('native'))
